@@ -15,13 +15,32 @@
    [local_pre] (fired before the children are visited) and [local_post] (after).  Within one table constructor the
    Go code interleaves its own type-5 reports with the reports of nested values, and in an assignment the
    type-7/20 report comes before the surplus right-hand sides are visited; the observable (the set of published
-   diagnostics) does not depend on that order.  *)
+   diagnostics) does not depend on that order.
+
+   The model is parameterised by a record of fix flags [fixes]: false = the code before the repair, true = after
+   (one flag per diff /verif/fixes/C20-<slug>.diff).  [no_fixes] is the code as found, [deployed] is what the
+   correspondence driver runs (= the state of /repo), [all_fixes] has every prepared repair.  *)
 From Coq Require Import List NArith ZArith Bool Arith.
 From LH Require Import Base.Bytes Base.Res Model.Lexer Model.Ast Model.Parser Model.LuaFront Spec.PatternSpec.
 Import ListNotations.
 Local Open Scope N_scope.
 
 Record report := mkRep { r_ty : N; r_loc : loc; r_msg : list N }.
+
+(* ------------------------------------------------------------------ the repairs *)
+Record fixes := mkFixes {
+  fx_else : bool;      (* C20-t19-else:           IfStat.HasElse; the synthetic `true` of an else branch is no condition *)
+  fx_nil_loc : bool;   (* C20-nil-loc:            GetExpLoc has a case for NilExp *)
+  fx_parens : bool;    (* C20-parens:             CompExp skips grouping parentheses *)
+  fx_str_key : bool;   (* C20-t5-string-key:      the key string of a string key is a double quote + Str *)
+  fx_int_key : bool;   (* C20-t5-int-key-place:   a repeated integer key is reported at the key *)
+  fx_name14 : bool;    (* C20-t14-name-collision: 14 needs CompExp besides equal names *)
+  fx_surplus : bool }. (* C20-local-surplus:      every value of a local declaration is visited (`continue`, not `break`) *)
+Definition no_fixes : fixes := mkFixes false false false false false false false.
+Definition all_fixes : fixes := mkFixes true true true true true true true.
+(* the state of /repo: everything but C20-local-surplus (that one changes what EVERY pass visits, which the models of
+   other properties (Usage.v, Scope.v, Symbols.v) describe as well) *)
+Definition deployed : fixes := mkFixes true true true true true true false.
 
 (* ------------------------------------------------------------------ small helpers *)
 Definition is_initial_loc (l : loc) : bool := loc_eqb l zero_loc.          (* Location.IsInitialLoc *)
@@ -89,10 +108,11 @@ Fixpoint exp_name (e : exp) : list N :=
   end.
 Definition has_hash (s : list N) : bool := existsb (fun c => c =? 35) s.   (* strings.Contains(s, "#") *)
 
-(* GetExpLoc: no case for NilExp (and none for BadExpr) -> the zero Location *)
-Definition get_exp_loc (e : exp) : loc :=
+(* GetExpLoc: no case for NilExp (before C20-nil-loc) and none for BadExpr -> the zero Location *)
+Definition get_exp_loc (fx : fixes) (e : exp) : loc :=
   match e with
-  | ENil _ | EBad _ => zero_loc
+  | ENil l => if fx_nil_loc fx then l else zero_loc
+  | EBad _ => zero_loc
   | ETrue l | EFalse l | EVararg l | EInt _ l | EFloat _ l | EStr _ l | EUnop _ _ l | EBinop _ _ _ l
   | ETable _ _ l | EFunc _ _ _ _ _ l _ _ | EName _ l | EParens _ l | EIndex _ _ l | ECall _ _ _ l => l
   end.
@@ -105,10 +125,11 @@ Definition one_value (e : exp) : bool :=
   end.
 
 (* GetTableConstuctorKeyStr: (strKey, strShow, loc) *)
-Definition key_str (k : exp) (parent : loc) : option (list N * list N * loc) :=
+Definition key_str (fx : fixes) (k : exp) (parent : loc) : option (list N * list N * loc) :=
   match k with
-  | EInt v _ => Some (s_int ++ dec_Z v, dec_Z v, parent)             (* "#int" + decimal; Loc of the TABLE *)
-  | EStr s l => Some (s, s, l)
+  | EInt v l => Some (s_int ++ dec_Z v, dec_Z v,                     (* "#int" + decimal *)
+                      if fx_int_key fx then l else parent)           (* before: the Loc of the TABLE *)
+  | EStr s l => Some (if fx_str_key fx then 34 :: s else s, s, l)    (* before: the string itself, no prefix *)
   | EName n l => Some (33 :: n, n, l)
   | _ => None
   end.
@@ -134,12 +155,38 @@ Definition t_dupif : N := 19.
 Definition t_selfassign : N := 20.
 Definition t_floateq : N := 21.
 
+(* skipParens (C20-parens), applied by CompExp at every level of its recursion = once, deeply, beforehand:
+   grouping parentheses go; the parentheses of `(f())` / `(...)` (they adjust to one value) stay, once *)
+Definition is_multi_p (e : exp) : bool := match e with ECall _ _ _ _ | EVararg _ => true | _ => false end.
+Fixpoint strip_p (e : exp) : exp :=
+  match e with
+  | EParens x l => let s := strip_p x in if is_multi_p s then EParens s l else s
+  | EUnop o x l => EUnop o (strip_p x) l
+  | EBinop o a b l => EBinop o (strip_p a) (strip_p b) l
+  | EIndex p k l => EIndex (strip_p p) (strip_p k) l
+  | ECall p nm args l => ECall (strip_p p) nm (map strip_p args) l
+  | _ => e
+  end.
+
+(* IfStat.HasElse (C20-t19-else): the parser appended the synthetic `true` of an else branch.  The shared AST has no such
+   field; the flag is recovered as "the last condition is a TrueExp whose Loc is the Loc of an `else` keyword" ([elses] =
+   the Locs of the `else` tokens of the file).  That is HasElse unless a real `true` condition carries the Loc of some
+   `else` token (the column defects of property C04); the driver counts (PatternsClasses.else_exact) and skips such a file. *)
+Definition has_else (elses : list loc) (es : list exp) : bool :=
+  match last es (ENil zero_loc) with
+  | ETrue l => existsb (loc_eqb l) elses
+  | _ => false
+  end.
+
 Section Patterns.
+  Variable fx : fixes.
   (* oracle: |v1 - v2| < 0.000001 on the float64 values strconv.ParseFloat gives for two float tokens
      (FloatExp.Val is not part of the model AST; the empty text stands for the Val 0 of a rejected numeral) *)
   Variable fclose : list N -> list N -> bool.
 
-  (* CompExp *)
+  Variable elses : list loc.      (* the Locs of the `else` keyword tokens of the file, see [has_else] *)
+
+  (* CompExp as it was *)
   Fixpoint comp_exp (a b : exp) {struct a} : bool :=
     match a, b with
     | ENil _, ENil _ => true
@@ -170,6 +217,10 @@ Section Patterns.
     | _, _ => false                     (* FuncDefExp, TableConstructorExp, BadExpr, different kinds *)
     end.
 
+  (* CompExp of the code: after C20-parens grouping parentheses are skipped *)
+  Definition cmp (a b : exp) : bool :=
+    if fx_parens fx then comp_exp (strip_p a) (strip_p b) else comp_exp a b.
+
   Fixpoint forallb2 {A B} (f : A -> B -> bool) (l1 : list A) (l2 : list B) : bool :=
     match l1, l2 with
     | [], [] => true
@@ -180,8 +231,8 @@ Section Patterns.
   (* ---------------------------------------------------------------- the checks, node by node *)
   (* cgBinopExp, first pass: 15 / 16, 21, 14 in this order *)
   Definition both_placed (e1 e2 : exp) : bool :=
-    negb (is_initial_loc (get_exp_loc e1)) && negb (is_initial_loc (get_exp_loc e2)).
-  Definition operands_loc (e1 e2 : exp) : loc := range_loc (get_exp_loc e1) (get_exp_loc e2).
+    negb (is_initial_loc (get_exp_loc fx e1)) && negb (is_initial_loc (get_exp_loc fx e2)).
+  Definition operands_loc (e1 e2 : exp) : loc := range_loc (get_exp_loc fx e1) (get_exp_loc fx e2).
   Definition check15 (op : tkind) (e1 e2 : exp) : list report :=
     if tk_eqb op TkOpOr && (is_true e1 || is_true e2) && both_placed e1 e2
     then [mkRep t_ortrue (operands_loc e1 e2) []] else [].
@@ -197,7 +248,8 @@ Section Patterns.
       if has_hash n1 then [] else
       let n2 := exp_name e2 in
       if has_hash n2 then [] else
-      if beq_bytes n1 n2 && both_placed e1 e2 then [mkRep t_sameexp (operands_loc e1 e2) n2] else []
+      if beq_bytes n1 n2 && (if fx_name14 fx then cmp e1 e2 else true) && both_placed e1 e2
+      then [mkRep t_sameexp (operands_loc e1 e2) n2] else []
     else [].
   Definition binop_checks (op : tkind) (e1 e2 : exp) (l : loc) : list report :=
     check15 op e1 e2 ++ check16 op e1 e2 ++ check21 op e1 e2 l ++ check14 op e1 e2.
@@ -208,7 +260,7 @@ Section Patterns.
     | [] => []
     | None :: r => table_checks r parent seen
     | Some k :: r =>
-      match key_str k parent with
+      match key_str fx k parent with
       | None => table_checks r parent seen
       | Some (key, show, l) =>
         match key with
@@ -232,9 +284,12 @@ Section Patterns.
   Definition param_checks (pars : list (list N)) (plocs : list loc) : list report :=
     param_pairs (combine pars plocs).
 
-  (* cgIfStat: for i < j, CompExp(Exps[i], Exps[j]) -> report at GetExpLoc(Exps[j]) *)
+  (* cgIfStat: for i < j, CompExp(Exps[i], Exps[j]) -> report at GetExpLoc(Exps[j]); over all entries of Exps, after
+     C20-t19-else without the synthetic one *)
+  Definition conds_of (es : list exp) : list exp :=
+    if fx_else fx && has_else elses es then removelast es else es.
   Definition if_later (x : exp) (rest : list exp) : list report :=
-    flat_map (fun y => if comp_exp x y then [mkRep t_dupif (get_exp_loc y) []] else []) rest.
+    flat_map (fun y => if cmp x y then [mkRep t_dupif (get_exp_loc fx y) []] else []) rest.
   Fixpoint if_checks (es : list exp) : list report :=
     match es with
     | [] => []
@@ -247,7 +302,7 @@ Section Patterns.
     let ne := length es in
     if Nat.ltb nv ne then [mkRep t_assign l []]
     else if Nat.ltb ne nv then (if forallb one_value es then [mkRep t_assign l []] else [])
-    else if forallb2 comp_exp vars es then [mkRep t_selfassign l []] else [].
+    else if forallb2 cmp vars es then [mkRep t_selfassign l []] else [].
 
   (* cgLocalVarDeclStat: 8 *)
   Definition local_checks (names : list (list N)) (es : list exp) (l : loc) : list report :=
@@ -308,7 +363,9 @@ Section Patterns.
       | SForNum _ _ i lim st b _ => [NE i; NE st; NE lim; NB b]       (* Init, Step, Limit *)
       | SForIn _ _ es b _ => map NE es ++ [NB b]
       | SAssign vars es _ => assign_children vars es
-      | SLocal names _ _ es _ => map NE (firstn (S (length names)) es) (* `if i >= nNames { break }` after cgExp *)
+      | SLocal names _ _ es _ =>
+        if fx_surplus fx then map NE es                                 (* `continue`: every value is visited *)
+        else map NE (firstn (S (length names)) es)                      (* `if i >= nNames { break }` after cgExp *)
       | SLocalFunc _ _ f _ => [NE f]
       | SBreak | SLabel _ _ | SGoto _ _ => []
       end
@@ -320,7 +377,7 @@ Section Patterns.
   Definition local_pre (n : node) : list report :=
     match n with
     | NE (EFunc _ _ pars plocs _ _ _ _) => param_checks pars plocs
-    | NS (SIf es _ _) => if_checks es
+    | NS (SIf es _ _) => if_checks (conds_of es)
     | NS (SLocal names _ _ es l) => local_checks names es l
     | _ => []
     end.
@@ -341,23 +398,27 @@ Section Patterns.
 
   (* the diagnostics of the listed types for one file, after the server's de-duplication *)
   Definition run_block (b : block) : list report := dedup (collect (nsize (NB b)) (NB b)).
-
-  Section FromBytes.
-    Variable gbk_runes : list N -> Z.
-    Variable classify : list N -> numcls.
-    (* BeginAnalyze: after the 31st error the AST is dropped (empty block); otherwise the (possibly partial) AST
-       is analysed whether or not there were syntax errors *)
-    Definition run_bytes (bs : list N) : Res (list report) :=
-      do r <- parse_bytes gbk_runes classify bs ;
-      match r with
-      | PR b _ _ => Ok (run_block b)
-      | PRTooMany => Ok []
-      end.
-  End FromBytes.
 End Patterns.
+
+Section FromBytes.
+  Variable fx : fixes.
+  Variable fclose : list N -> list N -> bool.
+  Variable gbk_runes : list N -> Z.
+  Variable classify : list N -> numcls.
+  (* BeginAnalyze: after the 31st error the AST is dropped (empty block); otherwise the (possibly partial) AST
+     is analysed whether or not there were syntax errors *)
+  Definition run_bytes (bs : list N) : Res (list report) :=
+    do ts0 <- lex_all gbk_runes bs ;                                  (* = parse_bytes, keeping the tokens *)
+    let ts := parser_view ts0 in
+    do r <- parse_tokens classify (fuel_of_tokens ts) ts ;
+    match r with
+    | PR b _ _ => Ok (run_block fx fclose (else_locs zero_tok ts) b)
+    | PRTooMany => Ok []
+    end.
+End FromBytes.
 
 (* a report of type [ty] at [L] is in the list *)
 Definition reported (ty : N) (L : loc) (rs : list report) : Prop :=
   exists r, In r rs /\ r_ty r = ty /\ r_loc r = L.
 (* GetExpLoc gives a real (non-zero) Location *)
-Definition has_place (e : exp) : Prop := is_initial_loc (get_exp_loc e) = false.
+Definition has_place (fx : fixes) (e : exp) : Prop := is_initial_loc (get_exp_loc fx e) = false.
